@@ -173,6 +173,9 @@ func runFED14(r *core.Run) {
 		if mode >= 1 {
 			o = append(o, engine.WithPreFetchFieldAuthorizer(auth))
 		}
+		// the plan in the extensions (queries, no values) lets a mismatch with the reference be
+		// recognised as the known planner finding "cyclic fetch dependencies"
+		o = append(o, engine.SimWithResolveContext(func(rc *resolve.Context) { rc.ExecutionOptions.IncludeQueryPlanInResponse = true }))
 		return o
 	}
 	execs, out := e.runOps(eng, []*fedOp{op}, func(o *fedOp) string { return o.Query }, opts)
@@ -329,7 +332,11 @@ func runFED14(r *core.Run) {
 				if kind == 1 {
 					keyk += "-mutation"
 				}
-				if sharedKeyFinding(op.Query, data, want) {
+				if planHasDependencyCycle(body) {
+					// not an authorization matter either (DESIGN.md 12.3): a @requires field computed
+					// before its input arrived
+					keyk += "-plan-with-cyclic-fetch-dependencies"
+				} else if sharedKeyFinding(op.Query, data, want) {
 					// not an authorization matter: the planner defect of DESIGN.md 12.3 loses data (or a
 					// @requires input) below a response key shared by fragments on different types; the
 					// sentinel scan above is unaffected
